@@ -16,6 +16,8 @@ pub mod preprocessor;
 pub mod syntax_kind;
 pub mod token_kind;
 pub mod token_stream;
+#[cfg(feature = "verif")]
+pub mod verif;
 
 #[derive(Debug, Clone, Copy, PartialEq, Eq, PartialOrd, Ord, Hash)]
 pub enum Language {}
